@@ -197,7 +197,61 @@ def dir2_worker(ctx, job):
     return res
 
 
+def sri_edge_worker(ctx, job):
+    """Reference-written bucket: a good record for the key (its content stored), then a record whose integrity string
+    sits at an edge of 'can name a content file'. The reference decides whether the second record counts; every lookup
+    of every flavour and the listing must follow it (the later record if usable, else the earlier one)."""
+    res = V.new()
+    cache = ctx.fresh("c17e-")
+    key = "edge-key"
+    data = ref.gen(4, 1)
+    good = ref.sri("sha256", data)
+    for x in job["strings"]:
+        usable = ref.usable_sri(x)
+        recs = [{"key": key, "integrity": good, "time": 50, "size": 4, "metadata": None, "raw_metadata": None},
+                {"key": key, "integrity": x, "time": 60, "size": 3, "metadata": {"edge": True}, "raw_metadata": None}]
+        for order in ("good-then-edge", "edge-only"):
+            snap = {ref.bucket_rel(key): ("f", b"".join(ref.encode_record(r) for r in (recs if order == "good-then-edge" else recs[1:]))),
+                    ref.content_rel(good): ("f", data)}
+            ref.add_parent_dirs(snap)
+            want = recs[1] if usable else (recs[0] if order == "good-then-edge" else None)
+            for flavour in job["flavours"]:
+                fsutil.restore(cache, snap)
+                srv = ctx.srv(flavour)
+                res["evals"] += 1
+                res["distinct"].add(V.h("edge", x, order, flavour))
+                replay = {"engine": "seqx", "direction": "reference writes, library reads", "integrity": x, "reference_says_usable": usable, "bucket": order, "flavour": flavour}
+                ops_ = ["metadata_sync", "index_find"] + (["metadata", "index_find_async"] if is_async(flavour) else [])
+                for op in ops_ + ["list_sync"]:
+                    rep = srv.call({"op": op, "cache": cache, "key": key})
+                    res["transitions"] += 1
+                    if "ok" not in rep or rep.get("panics"):
+                        V.violation(res, "layout:integrity-edge:%s:%s" % (op, classify(rep)), "%s on a bucket holding integrity %r did not succeed: %r" % (op, x, rep), replay)
+                        continue
+                    if op == "list_sync":
+                        items = [i["ok"] for i in rep["ok"] if "ok" in i]
+                        got = items[0] if len(items) == 1 else (None if not items else "several")
+                        if any("err" in i for i in rep["ok"]):
+                            got = "error-item"
+                    else:
+                        got = rep["ok"]
+                    if isinstance(got, dict):
+                        same = want is not None and got["integrity"].split() == want["integrity"].split() and got["size"] == want["size"] and str(got["time"]) == str(want["time"])
+                    else:
+                        same = got is None and want is None
+                    V.outcome(res, "edge:%s" % ("usable" if usable else "unusable"))
+                    if not same:
+                        V.violation(res, "layout:integrity-edge:%s:%s" % (op, "reference-usable" if usable else "reference-unusable"),
+                                    "integrity %r (reference: %s), bucket %s: %s returned %r, expected %r" % (x, "usable" if usable else "unusable", order, op,
+                                                                                                                 got if not isinstance(got, dict) else (got["integrity"], got["size"]), want and (want["integrity"], want["size"])), replay)
+    fsutil.wipe(cache)
+    res["samples"].append({"dir": "2e", "integrity_strings": job["strings"][:5]})
+    return res
+
+
 def worker(ctx, job):
+    if job["kind"] == "sri-edge":
+        return sri_edge_worker(ctx, job)
     return dir1_worker(ctx, job) if job["kind"] == "dir1" else dir2_worker(ctx, job)
 
 
@@ -233,6 +287,8 @@ def main(tier, seed=0):
     chunk = max(1, len(allh) // 64)
     for i in range(0, len(allh), chunk):
         jobs.append({"kind": "dir2", "histories": allh[i:i + chunk], "flavours": flavours})
+    for i in range(0, len(tables.SRI_EDGE), 6):
+        jobs.append({"kind": "sri-edge", "strings": tables.SRI_EDGE[i:i + 6], "flavours": flavours})
     import checks.c16 as c16
     old = c16.worker
     c16.worker = worker
